@@ -3,11 +3,16 @@ from vcommon import *
 import scen_common, prop_mu_family
 
 PID = "C13"
-PROP_V = "Props/Properties_C13.v"
+PROP_V = ["Props/Properties_C13.v", "Props/Properties_C13b.v"]
 GEN_MODULES = ["Consts", "Sites"]
 FLOW_FILES = ['mu.c']
 REPLAY_HINT = "VRT_SEED=<seed> [env] _work/h/<scenario>: the arena unmaps freed blocks (UAF) and the runtime knows every thread's parked stack pointer (DEADSTACK)"
-PARTIAL = ["the property's first sentence read literally ('touches nothing after the release') is false on the contended path: between the early release (spinlock CAS that drops the lock bits) and the last CAS another thread may lock and unlock; C13_pinned is the substitute: in that window the mutex is pinned by a non-empty queue / designated waker that the freeing thread would have to pass, and after the LAST CAS only waiter records are touched (C13_last_cas)",
+PARTIAL = ["Properties_C13b proves by computation over the regenerated Gen/Flow.v + Gen/Sites.v that after nsync_mu_unlock_slow_'s last word CAS (site 5, retry load 6) "
+           "only the `waiting` store (site 7), nsync_mu_semaphore_v and EXIT are reachable and that this tail is closed; that after the early-release CAS (site 3) the "
+           "function cannot return without passing site 5; and that each release CAS of nsync_mu_unlock / nsync_mu_runlock is followed by EXIT or by another look at "
+           "the word / the slow-path call.  Flow.v is a may-follow relation without branch polarity: that EXIT is the SUCCESS branch of `if (!CAS)` comes from the "
+           "model (C13_fast_release_is_last) and the lock-step replay; plain accesses and callees without atomic sites (dll operations) are not nodes of the flow",
+           "the property's first sentence read literally ('touches nothing after the release') is false on the contended path: between the early release (spinlock CAS that drops the lock bits) and the last CAS another thread may lock and unlock; C13_pinned is the substitute: in that window the mutex is pinned by a non-empty queue / designated waker that the freeing thread would have to pass, and after the LAST CAS only waiter records are touched (C13_last_cas)",
            "C13_last_cas / C13_fast_release_is_last are facts about the model's step function for ANY world (syntactic in the hand-written skeleton; tied to the code by the lock-step replay and the flow pin of mu.c: after nsync_mu_unlock_slow_'s last word CAS the only nodes are the `waiting` store, semaphore V and EXIT); reads are not expressible in the model's footprint, they are the arena oracle's business",
            "waker half: C13_waker_footprint (Properties_C11) covers nsync_wait_n records on cvs without transferred waiters, and is tied to the code: the replay "
            "compares the model's footprint with the implementation's traced accesses to nsync_waiter_s records at every replayed step (exact for heap arrays, "
